@@ -23,7 +23,7 @@ pub struct NsReader<R> {
     /// An XML reader
     pub(super) reader: Reader<R>,
     /// A buffer to manage namespaces
-    ns_resolver: NamespaceResolver,
+    pub(super) ns_resolver: NamespaceResolver,
     /// We cannot pop data from the namespace stack until returned `Empty` or `End`
     /// event will be processed by the user, so we only mark that we should that
     /// in the next [`Self::read_event_impl()`] call.
@@ -604,7 +604,12 @@ impl<R: BufRead> NsReader<R> {
     pub fn read_to_end_into(&mut self, end: QName, buf: &mut Vec<u8>) -> Result<Span> {
         // According to the https://www.w3.org/TR/xml11/#dt-etag, end name should
         // match literally the start name. See `Config::check_end_names` documentation
-        self.reader.read_to_end_into(end, buf)
+        let result = self.reader.read_to_end_into(end, buf)?;
+        // `read_to_end_into` consumed the closing tag, so its scope is finished
+        // (as well as the scope of an `Empty` or `End` event returned just before)
+        self.pop();
+        self.ns_resolver.pop();
+        Ok(result)
     }
 }
 
@@ -840,7 +845,12 @@ impl<'i> NsReader<&'i [u8]> {
     pub fn read_to_end(&mut self, end: QName) -> Result<Span> {
         // According to the https://www.w3.org/TR/xml11/#dt-etag, end name should
         // match literally the start name. See `Config::check_end_names` documentation
-        self.reader.read_to_end(end)
+        let result = self.reader.read_to_end(end)?;
+        // `read_to_end` consumed the closing tag, so its scope is finished
+        // (as well as the scope of an `Empty` or `End` event returned just before)
+        self.pop();
+        self.ns_resolver.pop();
+        Ok(result)
     }
 
     /// Reads content between start and end tags, including any markup. This
@@ -910,7 +920,12 @@ impl<'i> NsReader<&'i [u8]> {
     /// [`decoder()`]: Reader::decoder()
     #[inline]
     pub fn read_text(&mut self, end: QName) -> Result<Cow<'i, str>> {
-        self.reader.read_text(end)
+        let result = self.reader.read_text(end)?;
+        // `read_text` consumed the closing tag, so its scope is finished
+        // (as well as the scope of an `Empty` or `End` event returned just before)
+        self.pop();
+        self.ns_resolver.pop();
+        Ok(result)
     }
 }
 
